@@ -191,8 +191,23 @@ def main(argv=None):
     t0 = time.time()
     outdir = os.path.join(VERIF, "out", pid)
     known = load_known(pid)
-    known_obl = {k["id"]: k for k in known if k["kind"] == "obligation"}
-    known_bnd = {k["id"]: k for k in known if k["kind"] == "bounded"}
+    import re as _re
+
+    class KnownMap(dict):
+        """exact ids plus `id_regex` entries"""
+        def __init__(self, entries):
+            super().__init__({k["id"]: k for k in entries if "id" in k})
+            self.patterns = [(_re.compile(k["id_regex"]), k) for k in entries if "id_regex" in k]
+
+        def __contains__(self, key):
+            return dict.__contains__(self, key) or any(p.search(key) for p, _ in self.patterns)
+
+        def __getitem__(self, key):
+            if dict.__contains__(self, key):
+                return dict.__getitem__(self, key)
+            return next(k for p, k in self.patterns if p.search(key))
+    known_obl = KnownMap([k for k in known if k["kind"] == "obligation"])
+    known_bnd = KnownMap([k for k in known if k["kind"] == "bounded"])
     violations, known_hits, undecided_notes = [], [], []
     engine_errors = []
 
@@ -225,13 +240,13 @@ def main(argv=None):
                 # budget): reported as a violation; the replay file carries the query and the solver's reason
                 path, confirmed, what = replay_model(pid, oid, e, outdir)
                 if oid in known_obl:
-                    known_hits.append((oid, known_obl[oid]["what"]))
+                    known_hits.append((known_obl[oid].get("id", known_obl[oid].get("id_regex")), known_obl[oid]["what"]))
                     continue
                 violations.append((oid, path, confirmed, what or f"no longer discharged (solver: {e.get('reasons')})"))
                 continue
             path, confirmed, what = replay_model(pid, oid, e, outdir)
             if oid in known_obl:
-                known_hits.append((oid, known_obl[oid]["what"]))
+                known_hits.append((known_obl[oid].get("id", known_obl[oid].get("id_regex")), known_obl[oid]["what"]))
                 continue
             violations.append((oid, path, confirmed, what))
         if obligations == 0 and not ded["undecided"] and not ded["errors"]:
@@ -259,7 +274,8 @@ def main(argv=None):
             for fl in bounded.get("failures", []):
                 sig = fl["signature"]
                 if sig in known_bnd:
-                    known_hits.append((sig, known_bnd[sig]["what"]))
+                    kf = known_bnd[sig]
+                    known_hits.append((kf.get("id", kf.get("id_regex")), kf["what"]))
                 else:
                     violations.append((sig, fl.get("replay", os.path.join(outdir, "bounded.json")), True, fl.get("what")))
             for s in bounded.get("samples", [])[:3]:
